@@ -111,6 +111,32 @@ def method(forest, interp, genv, cls, name):
     return FuncVal(forest.func('encoder', f'{cls}.{name}'), genv, interp)
 
 
+BUFFER_STAGES = ('write_segment', 'write_terminator', 'write_padding_bits', 'write_pad_codewords')
+
+
+def stage_policy(fx, name):
+    """How a stand-in for stage `name` answers its caller.  In the reference tree the buffer writers and the pattern writers
+    return nothing.  Where a reorganised stage hands something back, the stand-in has to do so as well: one of its own
+    arguments is handed back as it is; a computed value of a buffer writer comes from the repository's own stage, run on
+    the model buffer ('real'); anything else cannot be modelled."""
+    import ast as _ast
+    from .. import src as _src
+    try:
+        fn = fx.fn('encoder', name)
+    except Unknown:
+        return 'stub'
+    rets = [n for n in _src.walk_local(fn) if isinstance(n, _ast.Return) and n.value is not None
+            and not (isinstance(n.value, _ast.Constant) and n.value.value is None)]
+    if not rets:
+        return 'stub'
+    params = _src.all_params(fn)
+    if all(isinstance(r.value, _ast.Name) and r.value.id in params for r in rets) and len({r.value.id for r in rets}) == 1:
+        return ('param', params.index(rets[0].value.id))
+    if name in BUFFER_STAGES:
+        return 'real'
+    raise Unknown(f'{name} hands back a value its stand-in cannot model')
+
+
 class SAModel(tuple):
     """encoder._StructuredAppendInfo as its __new__ and its four accessors define it (checked by C08.R3)."""
     _model = ('parity', 'number', 'total', 'mode')
@@ -121,15 +147,16 @@ class SAModel(tuple):
 
 
 def trace_encode(fx, version, level, boosted, mask_in=None, eci=False, sa_info=None, boost_error=True, nsegs=1, segments=None,
-                 real_write_segment=False, extra=None, real=()):
+                 real_write_segment=False, extra=None, real=(), run_real=()):
     """Interpret encoder._encode with every stage replaced by a recording stand-in.  Returns the list of
     (stage name, positional args, keyword args, len of the bit buffer at the call) and the value returned.
 
     The stand-ins hand on marker objects ('M0' the fresh matrix, 'M1' the masked one, 'FINAL' the final message) and
     the pad helpers append bits, so that the order of the stages, the objects passed from stage to stage and a stale
     length are all visible in the trace."""
-    from .common import levels as _levels, modes as _modes
+    from .common import levels as _levels, modes as _modes, micro_versions as _micro
     lv, md = _levels(fx), _modes(fx)
+    _mvs = _micro(fx)
     rec = []
     bufs = []
 
@@ -158,29 +185,67 @@ def trace_encode(fx, version, level, boosted, mask_in=None, eci=False, sa_info=N
             a = tuple(a)
             buf = next((x for x in a if isinstance(x, B)), None)
             rec.append((name, a, k, len(buf) if buf is not None else None))
+            if name in run_real or (policy == 'real' and result is None):
+                # recorded, then the repository's own stage runs on the bit buffer (its return value may be used by the caller)
+                return FuncVal(fx.fn('encoder', name), genv_box[0], it)(*a, **k)
             if buf is not None and grow:
                 buf.bits.extend([0] * grow)
+            if isinstance(policy, tuple) and result is None:
+                return a[policy[1]] if policy[1] < len(a) else None
             return result(*a, **k) if callable(result) else result
+        policy = stage_policy(fx, name) if name in BUFFER_STAGES + ('add_finder_patterns', 'add_alignment_patterns', 'add_codewords', 'add_format_info', 'add_version_info') else 'stub'
         return f
     it = Interp(max_steps=2_000_000)
+    genv_box = [None]
     M0, M1 = ['M0'], ('M1',)
     over = dict(extra or {})
     if not real_write_segment:
         over['write_segment'] = stage('write_segment', grow=37)
+    elif 'write_segment' in run_real:
+        over['write_segment'] = stage('write_segment')
     if 'boost_error_level' not in real:
         over['boost_error_level'] = stage('boost_error_level', None if boosted is None else lv[boosted])
-    genv = encoder_env(
-        fx.forest, it, Buffer=B, **over,
+    genv_over = dict(
+        over, Buffer=B,
         write_terminator=stage('write_terminator', grow=3), write_padding_bits=stage('write_padding_bits', grow=5),
         write_pad_codewords=stage('write_pad_codewords', grow=16), make_final_message=stage('make_final_message', 'FINAL'),
         make_matrix=stage('make_matrix', M0), add_finder_patterns=stage('add_finder_patterns'), add_alignment_patterns=stage('add_alignment_patterns'),
         add_codewords=stage('add_codewords'), find_and_apply_best_mask=stage('find_and_apply_best_mask', (5, M1)),
         add_format_info=stage('add_format_info'), add_version_info=stage('add_version_info'),
         Code=stage('Code', lambda *a, **k: ('CODE',) + a))
-    segs = segments if segments is not None else SegmentsModel([SegModel(md['byte'], 'iso-8859-1') for _ in range(nsegs)])
-    have = _src.all_params(fx.fn('encoder', '_encode'))
+    genv = encoder_env(fx.forest, it, **genv_over)
+    genv_box[0] = genv
+    if segments is None and any(stage_policy(fx, n_) == 'real' for n_ in BUFFER_STAGES) and version in (_mvs.get(-3), _mvs.get(-2)):
+        # the repository's own segment writer runs: M1 / M2 know no byte mode
+        segs = SegmentsModel([SegModel(md['numeric'], None) for _ in range(nsegs)])
+    else:
+        segs = segments if segments is not None else SegmentsModel([SegModel(md['byte'], 'iso-8859-1') for _ in range(nsegs)])
+    try:
+        have = _src.all_params(fx.fn('encoder', '_encode'))
+    except Unknown:
+        have = None
     if have != ['segments', 'error', 'version', 'mask', 'eci', 'boost_error', 'sa_info']:
-        raise Unknown(f'_encode has another interface than the rules drive it through: {have}')
+        if sa_info is not None and (segments is not None or nsegs != 1 or extra or real_write_segment or real):
+            raise Unknown(f'_encode has another interface than the rules drive it through: {have} (and the Structured Append information cannot be handed in from outside)')
+        if sa_info is not None:
+            return _trace_sequence_symbol(fx, it, version, level, boosted, mask_in, eci, sa_info, boost_error, lv, md)
+        # The private entry point was reorganised.  The same symbol is requested through the public entry point `encode`, with
+        # segment construction and version search replaced by stand-ins that hand in the rule's segments and version, and
+        # the normalisers (decided by C14) replaced by the identity.
+        found = []
+
+        def prepare_data(content, mode, encoding):
+            return segs
+
+        def find_version(segments, error, eci=False, micro=None, is_sa=False):
+            found.append((segments, error, eci, micro, is_sa))
+            return version
+        genv2 = genv_box[0] = encoder_env(fx.forest, it, **dict(genv_over, prepare_data=prepare_data, find_version=find_version,
+                                                   normalize_version=lambda version: version, normalize_errorlevel=lambda error, accept_none=False: error,
+                                                   normalize_mask=lambda mask, is_micro=None: mask, normalize_mode=lambda mode: mode))
+        res = FuncVal(fx.fn('encoder', 'encode'), genv2, it)('<content>', error=None if level is None else lv[level], version=version, mask=mask_in, eci=eci,
+                                                             boost_error=boost_error)
+        return rec, res, dict(buffers=bufs, segments=segs, M0=M0, M1=M1, genv=genv2, interp=it, via='encode')
     if isinstance(sa_info, SAModel):
         # the Structured Append information as the repository's own class builds it from (number, total, parity)
         cls_ = genv.get('_StructuredAppendInfo')
@@ -192,3 +257,211 @@ def trace_encode(fx, version, level, boosted, mask_in=None, eci=False, sa_info=N
             raise Unknown(f'_StructuredAppendInfo(number=, total=, parity=) raises {ex.name}: the internal interface changed')
     res = FuncVal(fx.fn('encoder', '_encode'), genv, it).call_in_order(segs, None if level is None else lv[level], version, mask_in, eci, boost_error, sa_info)
     return rec, res, dict(buffers=bufs, segments=segs, M0=M0, M1=M1, genv=genv, interp=it)
+
+
+def _trace_sequence_symbol(fx, it, version, level, boosted, mask_in, eci, sa_info, boost_error, lv, md):
+    """trace_encode for a Structured Append symbol when `_encode` was reorganised: the symbol number sa_info.number of a sequence
+    of sa_info.total + 1 symbols is requested through `encode_sequence` (segment construction, version search and parity
+    replaced by stand-ins, the normalisers by the identity) and observed at the leaf stages."""
+    number, total, parity = sa_info[1], sa_info[2], sa_info[3]
+    trace = SymbolTrace(fx, boost=(lambda e_, v_: lv[boosted]) if boosted is not None else None,
+                        code_result=lambda n_, sym_: ('CODE',) + tuple(sym_['code'][k_] for k_ in ('matrix', 'version', 'error', 'mask', 'segments')))
+
+    def make_segment(chunk, mode=None, encoding=None):
+        return SegModel(md['byte'], 'iso-8859-1')
+
+    whole = SegmentsModel([SegModel(md['byte'], 'iso-8859-1')])
+
+    def find_version(segments, error, eci=False, micro=None, is_sa=False):
+        if segments is whole:       # the message as a whole does not fit one symbol
+            import ast as _ast
+            from ..interp import Raised
+            raise Raised(None, it.exc_class(_ast.parse('DataOverflowError', mode='eval').body, genv), 'overflow')
+        return version
+
+    def prepare_data(content, mode, encoding):
+        return whole
+    genv = trace.bind(encoder_env(fx.forest, it, **dict(trace.env, make_segment=make_segment, find_version=find_version, prepare_data=prepare_data,
+                                              calc_structured_append_parity=lambda content, encoding=None: parity,
+                                              normalize_version=lambda version: version, normalize_errorlevel=lambda error, accept_none=False: error,
+                                              normalize_mask=lambda mask, is_micro=None: mask, normalize_mode=lambda mode: mode)), it)
+    content = ''.join(chr(0x100 + i) for i in range(3 * (total + 1)))
+    res = FuncVal(fx.fn('encoder', 'encode_sequence'), genv, it)(content, error=None if level is None else lv[level], mask=mask_in, eci=eci,
+                                                                  boost_error=boost_error, symbol_count=total + 1)
+    if not isinstance(res, (list, tuple)) or len(res) != total + 1 or len(trace.symbols) != total + 1:
+        raise Unknown(f'encode_sequence(symbol_count={total + 1}) built {len(trace.symbols)} symbols')
+    sym = trace.symbols[number]
+    if sym['problems']:
+        raise Unknown('symbol creation could not be traced from stage to stage: ' + '; '.join(sym['problems']))
+    return sym['calls'], res[number], dict(buffers=[sym['buffer']], segments=sym['code']['segments'], M0=sym['M0'], M1=sym['code']['matrix'], genv=genv,
+                                           interp=it, via='encode_sequence')
+
+
+class SymbolTrace:
+    """Stand-ins for the *leaf* stages of symbol creation (bit buffer, segment writer, level booster, terminator / padding,
+    final message, matrix construction, codeword placement, masking, format / version information, Code).  Whatever control
+    code sits above them - `_encode`, or helpers a refactoring split it into, called from `encode` or `encode_sequence` - is
+    interpreted as it is; every `Code(...)` that is built yields one symbol record, traced back through the objects handed from
+    stage to stage (masked matrix <- fresh matrix <- final message <- bit buffer)."""
+
+    def __init__(self, fx, boost=None, mask_result=5, code_result=None, grow_segment=37):
+        from .. import src as _src
+        self.fx = fx
+        self.calls = []          # (stage, args by parameter position, extra keywords, buffer length at the call)
+        self.bufs = []
+        self.symbols = []
+        self.boost = boost       # f(level, version) -> level the booster stand-in returns (None: the level it was given)
+        self.genv = self.interp = None      # set by bind(): where a repository stage runs when its stand-in cannot answer for it
+        trace = self
+
+        class B(BufModel):
+            def __init__(self):
+                BufModel.__init__(self, 0)
+                trace.bufs.append(self)
+        self.B = B
+
+        def stage(name, result=None, grow=0):
+            try:
+                pnames = _src.all_params(fx.fn('encoder', name))
+            except Exception:
+                pnames = []
+
+            def f(*a, **k):
+                a, k = list(a), dict(k)
+                for p_ in pnames[len(a):]:
+                    if p_ in k:
+                        a.append(k.pop(p_))
+                    else:
+                        break
+                a = tuple(a)
+                buf = next((x for x in a if isinstance(x, B)), None)
+                entry = (name, a, k, len(buf) if buf is not None else None)
+                trace.calls.append(entry)
+                if policy == 'real' and result is None:
+                    return FuncVal(fx.fn('encoder', name), trace.genv, trace.interp)(*a, **k)
+                if buf is not None and grow:
+                    buf.bits.extend([0] * grow)
+                if isinstance(policy, tuple) and result is None:
+                    return a[policy[1]] if policy[1] < len(a) else None
+                return result(entry, *a, **k) if callable(result) else result
+            policy = stage_policy(fx, name) if name in BUFFER_STAGES + ('add_finder_patterns', 'add_alignment_patterns', 'add_codewords', 'add_format_info', 'add_version_info') else 'stub'
+            return f
+        n = {'final': 0, 'm0': 0, 'm1': 0}
+
+        def final(entry, *a, **k):
+            n['final'] += 1
+            return ('FINAL', n['final'])
+
+        def fresh(entry, *a, **k):
+            n['m0'] += 1
+            return ['M0', n['m0']]
+
+        def masked(entry, *a, **k):
+            n['m1'] += 1
+            return (mask_result, ('M1', n['m1']))
+
+        def boosted(entry, version=None, error=None, *a, **k):
+            return error if self.boost is None else self.boost(error, version)
+
+        def code(entry, *a, **k):
+            sym = self._symbol(entry)
+            self.symbols.append(sym)
+            return code_result(len(self.symbols), sym) if code_result else ('CODE', len(self.symbols))
+        self.env = dict(
+            Buffer=B, write_segment=stage('write_segment', grow=grow_segment), boost_error_level=stage('boost_error_level', boosted),
+            write_terminator=stage('write_terminator', grow=3), write_padding_bits=stage('write_padding_bits', grow=5),
+            write_pad_codewords=stage('write_pad_codewords', grow=16), make_final_message=stage('make_final_message', final),
+            make_matrix=stage('make_matrix', fresh), add_finder_patterns=stage('add_finder_patterns'), add_alignment_patterns=stage('add_alignment_patterns'),
+            add_codewords=stage('add_codewords'), find_and_apply_best_mask=stage('find_and_apply_best_mask', masked),
+            add_format_info=stage('add_format_info'), add_version_info=stage('add_version_info'), Code=stage('Code', code))
+
+    def bind(self, genv, interp):
+        self.genv, self.interp = genv, interp
+        return genv
+
+    def _symbol(self, code_entry):
+        """The stage calls that belong to the symbol whose Code(...) is `code_entry`."""
+        calls = self.calls
+        ca = list(code_entry[1]) + [None] * 5
+        kw = code_entry[2]
+        matrix, version, error, mask, segments = (kw.get(nm, ca[i]) for i, nm in enumerate(('matrix', 'version', 'error', 'mask', 'segments')))
+        sym = dict(code=dict(matrix=matrix, version=version, error=error, mask=mask, segments=segments), problems=[])
+        # masked matrix <- find_and_apply_best_mask
+        masks = [c for c in calls if c[0] == 'find_and_apply_best_mask']
+        # the stand-in returned (mask_result, ('M1', k)) for the k-th call
+        k = matrix[1] if isinstance(matrix, tuple) and len(matrix) == 2 and matrix[0] == 'M1' else None
+        fm = masks[k - 1] if k is not None and 0 < k <= len(masks) else None
+        if fm is None:
+            sym['problems'].append(f'Code(matrix={matrix!r}): not the masked matrix find_and_apply_best_mask returned')
+            return sym
+        m0 = fm[1][0] if fm[1] else None
+        sym['mask_requested'] = fm[1][3] if len(fm[1]) > 3 else fm[2].get('proposed_mask')
+        sym['mask_dims'] = tuple(fm[1][1:3])
+        on_m0 = [c for c in calls if c[1] and c[1][0] is m0 and c[0] != 'find_and_apply_best_mask']
+        sym['matrix_stages'] = [c[0] for c in on_m0]
+        mk = [c for c in calls if c[0] == 'make_matrix']
+        j = m0[1] if isinstance(m0, list) and len(m0) == 2 and m0[0] == 'M0' else None
+        sym['matrix_size'] = tuple(mk[j - 1][1][:2]) if j is not None and 0 < j <= len(mk) else None
+        on_m1 = [c for c in calls if c[1] and c[1][0] == matrix and c[0] in ('add_format_info', 'add_version_info')]
+        for c in on_m1:
+            if c[0] == 'add_format_info':
+                sym['format'] = dict(version=c[1][1] if len(c[1]) > 1 else None, error=c[1][2] if len(c[1]) > 2 else None, mask=c[1][3] if len(c[1]) > 3 else None)
+            else:
+                sym['version_info'] = c[1][1] if len(c[1]) > 1 else None
+        sym['format_calls'] = len([c for c in on_m1 if c[0] == 'add_format_info'])
+        ac = [c for c in on_m0 if c[0] == 'add_codewords']
+        if len(ac) != 1:
+            sym['problems'].append(f'{len(ac)} x add_codewords on the matrix of this symbol')
+            return sym
+        final_obj = ac[0][1][1] if len(ac[0][1]) > 1 else None
+        sym['placed_version'] = ac[0][1][2] if len(ac[0][1]) > 2 else None
+        fms = [c for c in calls if c[0] == 'make_final_message']
+        i = final_obj[1] if isinstance(final_obj, tuple) and len(final_obj) == 2 and final_obj[0] == 'FINAL' else None
+        mf = fms[i - 1] if i is not None and 0 < i <= len(fms) else None
+        if mf is None:
+            sym['problems'].append(f'add_codewords places {final_obj!r}: not what make_final_message returned')
+            return sym
+        sym['final'] = dict(version=mf[1][0] if mf[1] else None, error=mf[1][1] if len(mf[1]) > 1 else None)
+        buf = mf[1][2] if len(mf[1]) > 2 else None
+        if not isinstance(buf, self.B):
+            sym['problems'].append('make_final_message is not given the bit buffer')
+            return sym
+        sym['buffer'] = buf
+        on_buf = [c for c in calls if any(x is buf for x in c[1])]
+        sym['buffer_stages'] = [c[0] for c in on_buf]
+        ws = [c for c in on_buf if c[0] == 'write_segment']
+        sym['written'] = [c[1][1] if len(c[1]) > 1 else None for c in ws]
+        sym['eci'] = sorted({bool(c[1][4]) if len(c[1]) > 4 else False for c in ws}, key=int)
+        nhdr = ws[0][3] if ws else len(buf.bits)
+        sym['header_bits'] = list(buf.bits[:nhdr])
+        # the booster call for this symbol: the one between the previous final message and this one
+        pos = calls.index(mf)
+        prev = max([calls.index(c) for c in fms if calls.index(c) < pos], default=-1)
+        bo = [c for c in calls[prev + 1:pos] if c[0] == 'boost_error_level']
+        if len(bo) > 1:
+            sym['problems'].append(f'{len(bo)} x boost_error_level for one symbol')
+        mine = on_buf + on_m0 + on_m1 + [fm, mf, code_entry] + bo[:1] + ([mk[j - 1]] if j is not None and 0 < j <= len(mk) else [])
+        seen_ids = set()
+        sym['calls'] = [c for c in calls if any(c is x for x in mine) and not (id(c) in seen_ids or seen_ids.add(id(c)))]
+        sym['M0'] = m0
+        sym['boost'] = None
+        if bo:
+            b = bo[0]
+            args = list(b[1]) + [None] * 5
+            sym['boost'] = dict(version=args[0], error=args[1], segments=args[2], eci=args[3], is_sa=args[4] if len(b[1]) > 4 else b[2].get('is_sa', False))
+        return sym
+
+    def header(self, sym):
+        """(mode indicator, number, total, parity) of a 20-bit Structured Append header, None without header, else the bits."""
+        bits = sym.get('header_bits', [])
+        if not bits:
+            return None
+        if len(bits) != 20 or any(b not in (0, 1) for b in bits):
+            return bits
+
+        def val(bs):
+            v = 0
+            for b in bs:
+                v = v << 1 | b
+            return v
+        return (val(bits[0:4]), val(bits[4:8]), val(bits[8:12]), val(bits[12:20]))
